@@ -191,6 +191,31 @@ def r12(text, ctx):
     return text, n
 
 
+@rule('R12b', '`for x in E { B }` over an iterator -> `let mut verif_it_k = E; loop { match verif_it_k.next() { Some(x) => { B }, None => { break; } } }` (the definition of `for`; keeps the '
+              'iterator in scope so that facts about what it has yielded survive the loop); rulearg R12b <loop variable>')
+def r12b(text, ctx):
+    n = 0
+    targets = ctx.rule_args.get('R12b', [])
+    while True:
+        toks = lex(text)
+        done = True
+        for (fi, ii, bo, bc) in find_for_loops(toks):
+            pat = text[toks[fi + 1].start:toks[ii - 1].end].strip()
+            if pat not in targets:
+                continue
+            expr = text[toks[ii + 1].start:toks[bo - 1].end].strip()
+            n += 1
+            body_inner = text[toks[bo].start:toks[bc].end]
+            new = ('let mut verif_it_%d = %s;\n        loop {\n            match verif_it_%d.next() {\n                Some(%s) => %s,\n                None => { break; }\n            }\n        }'
+                   % (n, expr, n, pat, body_inner))
+            text = text[:toks[fi].start] + new + text[toks[bc].end:]
+            done = False
+            break
+        if done:
+            break
+    return text, n
+
+
 @rule('R14', '`"lit".into()` at type String -> `"lit".to_string()` (From<&str> for String is to_owned)')
 def r14(text, ctx):
     n = 0
